@@ -134,3 +134,4 @@ pub assume_specification<T>[ Option::<T>::or ](a: Option<T>, b: Option<T>) -> (r
     ensures
         r == (if a.is_some() { a } else { b }),
 ;
+
